@@ -569,7 +569,7 @@ func (*Dependency).UnmarshalControl
   ensures result != nil ==> dep.Relations == old(dep.Relations)
   modifies dep.Relations
 
-property C18: (*Dependency).UnmarshalControl, parseArchInto, ParseArch, ParseArchitectures, (*Arch).UnmarshalControl, (*input).Peek, (*input).Next, eatWhitespace, parsePossibilityOperator, parsePossibilityNumber, parsePossibilityVersion,
+property C18: nosharedwrites, (*Dependency).UnmarshalControl, parseArchInto, ParseArch, ParseArchitectures, (*Arch).UnmarshalControl, (*input).Peek, (*input).Next, eatWhitespace, parsePossibilityOperator, parsePossibilityNumber, parsePossibilityVersion,
   parsePossibilityArch, parsePossibilityArchs, parsePossibilityStage, parsePossibilityStageSet, parsePossibilityControllers,
   parseMultiarch, parseSubstvar, parsePossibility, parseRelation, parseDependency, Parse
 
